@@ -95,9 +95,13 @@ def coq_makefile():
 
 def coq_build(targets, timeout=1500, jobs=NCPU):
     """make the given .vo targets (full compilation). Returns (ok, log_text)."""
-    coq_makefile()
-    cmd = "make -j%d %s" % (jobs, " ".join(targets))
-    rc, out, err, dt = sh(cmd, cwd=COQ, timeout=timeout)
+    import fcntl
+    os.makedirs(BUILD, exist_ok=True)
+    with open(os.path.join(BUILD, "coq.lock"), "w") as lk:
+        fcntl.flock(lk, fcntl.LOCK_EX)          # one `make` at a time in coq/
+        coq_makefile()
+        cmd = "make -j%d %s" % (jobs, " ".join(targets))
+        rc, out, err, dt = sh(cmd, cwd=COQ, timeout=timeout)
     return rc == 0, out + "\n" + err
 
 
@@ -175,9 +179,7 @@ def coq_eval_failing(tag, header, cases, shard=400, timeout=900):
     import concurrent.futures as cf
     d = os.path.join(COQ, "cases")
     os.makedirs(d, exist_ok=True)
-    for f in os.listdir(d):
-        if f.startswith(tag + "_"):
-            os.unlink(os.path.join(d, f))
+    tag = "%s_p%d" % (tag, os.getpid())      # several checks may run concurrently
     shards = [(i, cases[i:i + shard]) for i in range(0, len(cases), shard)]
 
     def one(arg):
@@ -213,7 +215,7 @@ def coq_eval_print(header, term, timeout=300):
     """Evaluate one term and return Coq's printed value (for diagnostics / replay)."""
     d = os.path.join(COQ, "cases")
     os.makedirs(d, exist_ok=True)
-    name = "one_%d" % os.getpid()
+    name = "one_p%d" % os.getpid()
     path = os.path.join(d, name + ".v")
     with open(path, "w") as fh:
         fh.write(header + "\nEval vm_compute in (%s).\n" % term)
